@@ -304,9 +304,10 @@ def param_grid(name, shapes, rng, thorough):
                 for re_ in (False, True):
                     yield {'shape': shape, 'random_agent': ra, 'random_exit': re_}
         elif name == 'rooms':
-            for ly in range(1, 5):
-                for lx in range(1, 5):
-                    yield {'shape': shape, 'layout': [ly, lx]}
+            for ly in range(-1, 5):  # zero or a negative number of rooms along a dimension cannot be honoured
+                for lx in range(-1, 5):
+                    if min(ly, lx) >= 1 or max(ly, lx) <= 2:
+                        yield {'shape': shape, 'layout': [ly, lx]}
         elif name == 'dynamic_obstacles':
             sat = max(0, (h - 2) * (w - 2) - 2)
             for n in sorted({-1, 0, 1, 2, sat - 1, sat, sat + 1, sat + 5}):
@@ -321,7 +322,7 @@ def param_grid(name, shapes, rng, thorough):
             for cs in COLOR_SETS:
                 yield {'shape': shape, 'colors': cs}
         elif name == 'memory_rooms':
-            for (ly, lx) in ((1, 1), (1, 2), (2, 2), (3, 3), (2, 4)):
+            for (ly, lx) in ((1, 1), (1, 2), (2, 2), (3, 3), (2, 4), (0, 2), (2, 0), (0, 0), (-1, 1)):
                 for cs in (COLOR_SETS if thorough else COLOR_SETS[1::2]):
                     for nb in (0, 1, 3):
                         for ne in (1, 2, 3, 5):
